@@ -17,6 +17,8 @@ import (
 
 func init() {
 	caddy.RegisterModule(&Need{})
+	caddy.RegisterModule(&Need2{})
+	caddy.RegisterModule(&Need3{})
 	caddy.RegisterModule(&ErrMatcher{})
 	caddy.RegisterModule(&Take{})
 	caddy.RegisterModule(&Term{})
@@ -178,6 +180,18 @@ func (m *Need) Match(cx *layer4.Connection) (bool, error) {
 		}
 	}
 	return (data[m.Pos] == m.Val) != m.Neg, nil
+}
+
+// Need2 and Need3 are aliases of Need under other module names, so that one
+// matcher set (a JSON object keyed by module name) can hold several of them.
+type Need2 struct{ Need }
+type Need3 struct{ Need }
+
+func (*Need2) CaddyModule() caddy.ModuleInfo {
+	return caddy.ModuleInfo{ID: "layer4.matchers.verif_need2", New: func() caddy.Module { return new(Need2) }}
+}
+func (*Need3) CaddyModule() caddy.ModuleInfo {
+	return caddy.ModuleInfo{ID: "layer4.matchers.verif_need3", New: func() caddy.Module { return new(Need3) }}
 }
 
 // ErrMatcher returns an error (not "need more") once N bytes are available.
